@@ -9,6 +9,7 @@ import Ogorek.CPickleOK
 import Ogorek.CPickleS
 import Ogorek.Py2Repr
 import Ogorek.Lemmas.PkRT
+import Ogorek.Props.C03Dec
 import Ogorek.Generated.IsPrint
 
 /-!
@@ -390,7 +391,7 @@ def handle (line : String) : String :=
       match (if framed == "1" then cpDumpsFramed false p v else if framed == "P" then cpDumps true p v else cpDumps false p v) with
       | some bs =>
         let flag (pd : Bool) : String := if pkOKb { pyDict := pd, su := false } v then "1" else "0"
-        "OK " ++ hexOfBytes bs ++ " " ++ flag false ++ flag true
+        "OK " ++ hexOfBytes bs ++ " " ++ flag false ++ flag true ++ (if p ≥ 1 || pyFloatsOKb v then "1" else "0")
       | none => "UNMODELLED"
     | _, _ => "BADCASE"
   | ["dechref", cfg, hook, hex] =>      -- `dech` on the list-by-reference machine (K1 classification)
@@ -417,9 +418,17 @@ def handle (line : String) : String :=
              else if framed == "O" then cpDumpsS mzO false p v else cpDumpsS all false p v) with
       | some bs =>
         let flag (pd : Bool) : String := if pkOKb { pyDict := pd, su := false } (erase v) then "1" else "0"
-        "OK " ++ hexOfBytes bs ++ " " ++ flag false ++ flag true ++ (if pyOKb (erase v) then "1" else "0")
+        "OK " ++ hexOfBytes bs ++ " " ++ flag false ++ flag true ++ (if pyOKb (erase v) then "1" else "0") ++
+          (if p ≥ 1 || pyFloatsOKb (erase v) then "1" else "0")
       | none => "UNMODELLED"
     | _, _ => "BADCASE"
+  | ["ftok", which, hex] =>      -- the protocol-0 float-text hypothesis, evaluated: g = Go's %g (floatTextOKb), p = Python's repr (pyFloatTextOKb)
+    match bytesOfHex? hex with
+    | some bs =>
+      if bs.length != 8 then "BADCASE" else
+      let f : F64 := UInt64.ofNat (bs.foldl (fun acc b => acc * 256 + b.toNat) 0)
+      if which == "g" then (if floatTextOKb f then "1" else "0") else (if pyFloatTextOKb f then "1" else "0")
+    | none => "BADCASE"
   | ["py2repr", hex] =>      -- repr of a Python-2 str (the STRING argument Python 2's pickler writes)
     match bytesOfHex? hex with
     | some bs => "OK " ++ hexOfBytes (py2repr bs)
